@@ -17,6 +17,7 @@ CONSTANTS
   Weak_PruneDropsLastChanged = FALSE
   Weak_PruneDropsCheckpoint = FALSE
   Weak_NoCheckpointRecord = FALSE
+  Weak_RecoveryCopyDropsValUpdates = FALSE
 INIT Init
 NEXT Next
 CHECK_DEADLOCK FALSE
